@@ -177,6 +177,38 @@ pub fn gen(out: &mut Out, thorough: bool, workdir: &str) {
             let depth = if thorough && b == batches - 1 && i % 20 == 0 { 24 } else if i % 10 == 0 { 6 } else { 3 };
             docs.push(gen_doc(&mut out.rng, 0, depth));
         }
+        if b == 0 {
+            // every array of up to 7 elements (8 when thorough) over {a literal, `null`}, half of them
+            // with a trailing comma, and the same as the member values of an object: the element
+            // muncher's rules see every short interleaving of literal and non-literal tokens
+            let maxn = if thorough { 8 } else { 7 };
+            let mut count = 0u64;
+            for n in 0..=maxn {
+                for mask in 0u32..(1 << n) {
+                    let leaf = |i: usize| if mask >> i & 1 == 1 { Doc::Int((i + 1).to_string()) } else { Doc::Null };
+                    docs.push(Doc::Arr((0..n).map(leaf).collect(), (mask as usize + n) % 2 == 0));
+                    if n >= 4 && mask % 3 == 0 {
+                        docs.push(Doc::Obj((0..n).map(|i| (if i % 3 == 2 { KeyStyle::Paren } else { KeyStyle::Lit }, format!("k{}", i), leaf(i))).collect(), (mask as usize + n) % 2 == 1));
+                    }
+                    count += 1;
+                }
+            }
+            out.count_n("short_arrays_literal_or_null", count);
+            out.exhaustive.push(format!("every array of <= {} elements over {{literal, null}} as a json! program", maxn));
+        }
+        // long arrays and wide objects of mixed elements (runs of literals between containers, names,
+        // nested programs), 8..=24 elements
+        for i in 0..(if thorough { 40 } else { 24 }) {
+            let n = 8 + (i * 5 + b) % 17;
+            let run = 1 + out.rng.below(7) as usize;
+            let elems: Vec<Doc> = (0..n).map(|j| if (j / run) % 2 == 0 || out.rng.chance(1, 4) { gen_doc(&mut out.rng, 3, 3) } else { gen_doc(&mut out.rng, 2, 3) }).collect();
+            if i % 3 == 2 {
+                docs.push(Doc::Obj(elems.into_iter().enumerate().map(|(j, x)| (match j % 4 { 0 => KeyStyle::Paren, 1 => KeyStyle::Var, _ => KeyStyle::Lit }, format!("m{}", j % 11), x)).collect(), i % 2 == 0));
+            } else {
+                docs.push(Doc::Arr(elems, i % 2 == 0));
+            }
+            out.count("long_mixed_arrays_objects");
+        }
         process(&docs, out, workdir);
     }
     out.notes.insert("programs".into(), format!("{} batch(es) of ~{} generated json! programs compiled against the current tree", batches, per));
